@@ -33,6 +33,7 @@ type Options struct {
 }
 
 type HarnessReport struct {
+	tf       *TF
 	Name     string
 	Pkg      string
 	Dom      string
@@ -472,6 +473,37 @@ func firstLine(out string, keys ...string) string {
 		}
 	}
 	return ""
+}
+
+// refineFPX re-decides one obligation under exact IEEE semantics.
+func (r *Runner) refineFPX(tf *TF, o *Obligation) (string, map[string]string) {
+	asserts := append([]*Term(nil), o.PC...)
+	if o.Kind != "reach" {
+		asserts = append(asserts, o.negCond)
+	}
+	p := NewPrinter(tf, DomFPX)
+	script := p.Script(asserts)
+	if p.Err != nil {
+		return "error", nil
+	}
+	declared := map[string]bool{}
+	for _, n := range p.DeclaredVars() {
+		declared[n] = true
+	}
+	var names []string
+	for _, in := range o.Inputs {
+		if declared[in.Name] {
+			names = append(names, in.Name)
+		}
+	}
+	timeout := 120 * time.Second
+	if r.tierThorough() {
+		timeout = 600 * time.Second
+	}
+	r.sem <- struct{}{}
+	defer func() { <-r.sem }()
+	res, _ := r.Pool.Portfolio([]string{"cvc5", "z3-new", "z3"}, script, names, timeout, false)
+	return res.Status, res.Model
 }
 
 func (r *Runner) matchKnown(prop string, o *Obligation) *KnownFinding {
